@@ -9,6 +9,7 @@ package corerad
 // model and the system state at that instant.
 
 import (
+	"bytes"
 	"encoding/json"
 	"fmt"
 	"io"
@@ -120,19 +121,20 @@ type c17Case struct {
 }
 
 type c17Probe struct {
-	At        time.Duration
-	Prepared  map[string]bool
-	Fwd       map[string]bool
-	StateBad  bool
-	Scrape    map[string]map[string]float64
-	ScrapeErr error
-	Panic     string
-	APICode   int
-	APIBody   []byte
-	Metrics   int
-	PProf     int
-	Overlap   string        // non-empty: what went wrong with the overlapping scrapes
-	OverlapTo time.Duration // virtual instant at which the last overlapping scrape had finished (one slow state read per interface)
+	At         time.Duration
+	Prepared   map[string]bool
+	Fwd        map[string]bool
+	StateBad   bool
+	Scrape     map[string]map[string]float64
+	ScrapeErr  error
+	Panic      string
+	APICode    int
+	APIBody    []byte
+	Metrics    int
+	PProf      int
+	Overlap    string        // non-empty: what went wrong with the overlapping scrapes
+	OverlapAPI string        // non-empty: what went wrong with the overlapping debug API requests
+	OverlapTo  time.Duration // virtual instant at which the last overlapping scrape had finished (one slow state read per interface)
 }
 
 // c17StateAt is the system state at virtual time at (ambiguous exactly at the change).
@@ -318,49 +320,83 @@ func c17Prop(t *testing.T, k *verifkit.Kit) func(c c17Case) error {
 						h.ServeHTTP(rec, httptest.NewRequest("GET", "/debug/pprof/", nil))
 						p.PProf = rec.Code
 					}()
-					if c.Overlap && p.Panic == "" && p.ScrapeErr == nil {
-						// last in the probe (it takes a few virtual milliseconds): three scrapes that overlap in time (two Prometheus servers, a slow sysctl read):
-						// each one on its own must be as complete as a scrape that runs alone
-						w.mu.Lock()
-						old := w.stDelay
-						w.stDelay = time.Millisecond
-						w.mu.Unlock()
-						var wg sync.WaitGroup
-						outs := make([]map[string]map[string]float64, 3)
-						errs := make([]error, 3)
-						for gi := 0; gi < 3; gi++ {
-							wg.Add(1)
-							go func() {
-								defer wg.Done()
-								defer func() {
-									if r := recover(); r != nil {
-										errs[gi] = fmt.Errorf("panic: %v", r)
-									}
-								}()
-								time.Sleep(time.Duration(gi) * 700 * time.Microsecond)
-								outs[gi], errs[gi] = vkScrape(w.mm)
-							}()
+					// (two rounds: three requests 0.7 ms apart, then two requests 1.4 ms apart - with three, what one request
+					// overwrites in shared state another may put back before the first looks again)
+					for _, offs := range [][]time.Duration{{0, 700 * time.Microsecond, 1400 * time.Microsecond}, {0, 1400 * time.Microsecond}} {
+						if !(c.Overlap && p.Panic == "" && p.ScrapeErr == nil) {
+							break
 						}
-						wg.Wait()
-						p.OverlapTo = w.now()
-						w.mu.Lock()
-						w.stDelay = old
-						w.mu.Unlock()
-						keys := func(m map[string]map[string]float64) string {
-							var ks []string
-							for series, samples := range m {
-								for k := range samples {
-									ks = append(ks, series+"{"+k+"}")
+						{
+							// last in the probe (it takes a few virtual milliseconds): three scrapes that overlap in time (two Prometheus servers, a slow sysctl read):
+							// each one on its own must be as complete as a scrape that runs alone
+							w.mu.Lock()
+							old := w.stDelay
+							w.stDelay = time.Millisecond
+							w.mu.Unlock()
+							var wg sync.WaitGroup
+							outs := make([]map[string]map[string]float64, len(offs))
+							errs := make([]error, len(offs))
+							for gi := range offs {
+								wg.Add(1)
+								go func() {
+									defer wg.Done()
+									defer func() {
+										if r := recover(); r != nil {
+											errs[gi] = fmt.Errorf("panic: %v", r)
+										}
+									}()
+									time.Sleep(offs[gi])
+									outs[gi], errs[gi] = vkScrape(w.mm)
+								}()
+							}
+							wg.Wait()
+							// ... and three requests to the debug API that overlap in the same way: each answer must be
+							// the one a request that ran alone got (judged only when no advertised value depends on time)
+							if p.APICode == http.StatusOK {
+								bodies, codes := make([][]byte, len(offs)), make([]int, len(offs))
+								for gi := range offs {
+									wg.Add(1)
+									go func() {
+										defer wg.Done()
+										defer func() {
+											if r := recover(); r != nil {
+												codes[gi] = -1
+												bodies[gi] = []byte(fmt.Sprintf("panic: %v", r))
+											}
+										}()
+										time.Sleep(offs[gi])
+										rec := httptest.NewRecorder()
+										h.ServeHTTP(rec, httptest.NewRequest("GET", "/_/api/interfaces", nil))
+										codes[gi], bodies[gi] = rec.Code, rec.Body.Bytes()
+									}()
+								}
+								wg.Wait()
+								for gi := range bodies {
+									if codes[gi] != p.APICode || !bytes.Equal(bodies[gi], p.APIBody) {
+										p.OverlapAPI = fmt.Sprintf("overlapping request %d to /_/api/interfaces -> %d\n%s\nthe request that ran alone -> %d\n%s", gi, codes[gi], bodies[gi], p.APICode, p.APIBody)
+									}
 								}
 							}
-							sort.Strings(ks)
-							return strings.Join(ks, "\n")
-						}
-						for gi := range outs {
-							if errs[gi] != nil {
-								p.Overlap = fmt.Sprintf("overlapping scrape %d failed: %v", gi, errs[gi])
-							} else if a, b := keys(p.Scrape), keys(outs[gi]); a != b {
-								p.Overlap = fmt.Sprintf("overlapping scrape %d reports a different set of samples than the scrape that ran alone:\nalone:\n%s\noverlapping:\n%s", gi, a, b)
+							p.OverlapTo = w.now()
+							w.mu.Lock()
+							w.stDelay = old
+							w.mu.Unlock()
+							keys := func(m map[string]map[string]float64) string {
+								var ks []string
+								for series, samples := range m {
+									for k := range samples {
+										ks = append(ks, series+"{"+k+"}")
+									}
+								}
+								sort.Strings(ks)
+								return strings.Join(ks, "\n")
+							}
+							for gi := range outs {
+								if errs[gi] != nil {
+									p.Overlap = fmt.Sprintf("overlapping scrape %d failed: %v", gi, errs[gi])
+								} else if a, b := keys(p.Scrape), keys(outs[gi]); a != b {
+									p.Overlap = fmt.Sprintf("overlapping scrape %d reports a different set of samples than the scrape that ran alone:\nalone:\n%s\noverlapping:\n%s", gi, a, b)
+								}
 							}
 						}
 					}
@@ -474,7 +510,7 @@ func c17Prop(t *testing.T, k *verifkit.Kit) func(c c17Case) error {
 		}
 		debugCfg := ref.Cfg.Debug
 		for _, p := range probes {
-			if p.Overlap != "" {
+			if p.Overlap != "" || (p.OverlapAPI != "" && !hasDep) {
 				// (only when no link event or address change falls into the few milliseconds of the overlap)
 				// the overlap lasts as long as the slowest scrape: one 1 ms state read per interface
 				span := max(10*time.Millisecond, p.OverlapTo-p.At+time.Millisecond)
@@ -500,8 +536,11 @@ func c17Prop(t *testing.T, k *verifkit.Kit) func(c c17Case) error {
 				if time.Duration(c.UpAtNS)+time.Duration(len(ref.Cfg.Interfaces))*time.Duration(c.UpStepNS) >= p.At-time.Millisecond && time.Duration(c.UpAtNS) <= p.At+span {
 					quiet = false
 				}
-				if quiet {
+				if quiet && p.Overlap != "" {
 					return verifkit.Violf("C17/overlapping-scrapes-differ", "probe at %v: %s\n%s", p.At, p.Overlap, text)
+				}
+				if quiet && p.OverlapAPI != "" && !hasDep {
+					return verifkit.Violf("C17/overlapping-api-requests-differ", "probe at %v: %s\n%s", p.At, p.OverlapAPI, text)
 				}
 			}
 			if p.Panic != "" {
